@@ -21,6 +21,15 @@ def stepLineDddmp (ms : Mgrs) (line : String) : Mgrs × String :=
       | .ok m => (ms.insert id m, "ok " ++ showInts (sortBy (· ≤ ·) m.roots))
       | .error e => (ms, "err " ++ toString e)
     | _, _ => (ms, "err BAD-LINE")
+  | _ :: "dddmp_eval" :: names :: fields =>
+    -- truth tables of `evalFile` (the specification) for every node line and root entry
+    match parseDddmpFile fields with
+    | some f =>
+      let names := splitList ((names.drop 6).toString) ','
+      let ns := f.nodes.map fun n => s!"{n.u}:{dddmpTruthTable f names n.u}"
+      let rs := (f.rootids.getD []).map fun r => s!"r{r}:{dddmpTruthTable f names r}"
+      (ms, "ok " ++ joinWith ";" (ns ++ rs))
+    | none => (ms, "err BAD-LINE")
   | _ => stepLine ms line
 
 partial def loop (h : IO.FS.Stream) (out : IO.FS.Stream) (ms : Mgrs) : IO Unit := do
